@@ -39,7 +39,7 @@ let build_cmd cmd tk = match cmd with
         | Prepared (st, dt, t, anc) ->
             Sched_cmds.reset ();
             Sched_cmds.st := Some st; Sched_cmds.dt := Some dt; Sched_cmds.s := Some (init_state st); Sched_cmds.ds := Some (init_dstate dt);
-            last_tables := Some (t, anc); (if check_static sc t anc && check_static2 sc t then "ok certified" else "ok uncertified") ^ (if flat_certified st then " flat" else "") ^ (if uniform_certified st then " uniform" else "") ^ (if init_before_untilb st then " ibu" else "") ^ (if check_bound t then " bound" else "") ^ (if pull_strictb st dt then " pull" else "")
+            last_tables := Some (t, anc); (if check_static sc t anc && check_static2 sc t then "ok certified" else "ok uncertified") ^ (if flat_certified st then " flat" else "") ^ (if uniform_certified st then " uniform" else "") ^ (if init_before_untilb st then " ibu" else "") ^ (if check_bound t then " bound" else "") ^ (if pull_strictb st dt then " pull" else "") ^ (if push_strictb st dt then " push" else "")
         | PrepScenarioError k -> Printf.sprintf "scenario_error %d" (int_of_nat k)
         | PrepCrash k -> Printf.sprintf "crash %d" (int_of_nat k)
         | PrepIncomparable -> "incomparable"
